@@ -25,21 +25,35 @@ REPO = os.environ.get("CHARTPARSE_REPO", "/repo")
 HERE = os.path.dirname(os.path.abspath(__file__))
 GEN = os.environ.get("LEAF_GEN") or os.path.join(HERE, "..", "coq", "Gen")
 
-WRAPPERS = {"Ticks", "Tick", "Seconds", "Timestamp", "int"}
+WRAPPERS = {"Ticks", "Tick", "Seconds", "Timestamp", "int", "_SustainList", "SustainTuple", "InstrumentTrackMap"}
 
 
 class LeafError(Exception):
     pass
 
 
+RAISES = {"ValueError": "EValue", "RegexNotMatchError": "ERegexNotMatch"}
+
+# element types of annotated empty lists, and the Coq spelling of translator types
+LIST_ANN = {"list[NoteEvent]": "note_event"}
+DICT_ANN = {"dict[str, Iterable[str]]": ("str", "list:str", "(str * list str)")}
+COQ_TYPES = {"note_event": "note_event", "int": "Z", "str": "str"}
+
+
 # attributes of typed model records
-ATTRS = {"bpm": {"tick": ("b_tick", "int"), "bpm": ("b_bpm", "float"), "timestamp": ("b_ts", "ts"), "_proximal_bpm_event_index": ("b_idx", "int")},
+ATTRS = {"synctrack": {"bpm_events": ("st_bpm", "bpmevents")},
+         "bpm": {"tick": ("b_tick", "int"), "bpm": ("b_bpm", "float"), "timestamp": ("b_ts", "ts"), "_proximal_bpm_event_index": ("b_idx", "int")},
          "timed": {"tick": ("t_tick", "int"), "timestamp": ("t_ts", "ts"), "_proximal_bpm_event_index": ("t_idx", "int")},
-         "nd": {"tick": ("nd_tick", "int"), "note_track_index": ("nd_idx", "int"), "sustain": ("nd_sus", "int")},
+         "nd": {"tick": ("nd_tick", "int"), "note_track_index": ("nd_idx", "ndidx"), "sustain": ("nd_sus", "int")},
+         "ndidx": {"value": ("", "int")},
          "bpmevents": {"resolution": ("resolution", "int")}}
 
+# attributes whose read can fail in the model (an attribute the object was built without)
+ATTRS_M = {"metadata": {"resolution": ("meta_resolution", "int")}}
+
 # methods of typed model records: receiver type -> method -> (coq function taking the receiver first, [arg types], result type, monadic?)
-METHODS = {"sp": {"tick_is_after_event": ("leaf_tick_is_after_event", ["int"], "bool", False),
+METHODS = {"ndidx": {"is_5_note": ("leaf_is_5_note", [], "bool", False)},
+           "sp": {"tick_is_after_event": ("leaf_tick_is_after_event", ["int"], "bool", False),
                   "tick_is_during_event": ("leaf_tick_is_during_event", ["int"], "bool", False)},
            "bpmevents": {"timestamp_at_tick": ("timestamp_at_tick", ["int", "int"], "tuple:ts,int", True)}}
 
@@ -87,6 +101,8 @@ class Tr:
                 return ("(%d)" % e.value if e.value < 0 else "%d" % e.value), "int", False
             if e.value is None:
                 return "None", "none", False
+            if isinstance(e.value, str) and e.value.isascii() and e.value.isprintable() and '"' not in e.value:
+                return '(of_string "%s"%%string)' % e.value, "str", False
             self.err(e, "constant")
         if isinstance(e, ast.Attribute):
             c, t, m = self.expr(e.value)
@@ -94,7 +110,10 @@ class Tr:
                 t = t[5:]
             if not m and t in ATTRS and e.attr in ATTRS[t]:
                 fld, ft = ATTRS[t][e.attr]
-                return "(%s %s)" % (fld, c), ft, False
+                return ("(%s %s)" % (fld, c) if fld else c), ft, False
+            if not m and t in ATTRS_M and e.attr in ATTRS_M[t]:
+                fld, ft = ATTRS_M[t][e.attr]
+                return "(%s %s)" % (fld, c), ft, True
             self.err(e, "attribute")
         if isinstance(e, ast.Call):
             fsrc = ast.unparse(e.func)
@@ -129,6 +148,50 @@ class Tr:
                 if m:
                     return "(let* q := %s in py_round_int q)" % c, "int", True
                 return "(py_round_int %s)" % c, "int", True
+            if fsrc == "itertools.islice" and len(e.args) == 3 and not e.keywords:
+                a, ta, ma = self.expr(e.args[0])
+                lo, tl, ml = self.expr(e.args[1])
+                hi, th, mh = self.expr(e.args[2])
+                if not ta.startswith("list:") or ma or ml or mh or th != "int":
+                    self.err(e, "islice")
+                lo = self.coerce(lo, tl, "opt:int", e)
+                return "(py_islice %s %s %s)" % (a, lo, hi), ta, False
+            if fsrc == "collections.defaultdict" and ast.unparse(e) == "collections.defaultdict(dict)":
+                return "(@nil (str * list (str * itrack)))", "tracks", False
+            if fsrc in ("tuple", "list", "dict") and len(e.args) == 1 and not e.keywords:
+                return self.expr(e.args[0])
+            if fsrc == "typ.cast" and len(e.args) == 2 and not e.keywords:
+                return self.expr(e.args[1])
+            if fsrc in ("all", "next", "max") and len(e.args) == 1 and not e.keywords and isinstance(e.args[0], ast.GeneratorExp):
+                g = e.args[0]
+                if len(g.generators) != 1 or g.generators[0].is_async or not isinstance(g.generators[0].target, ast.Name) or len(g.generators[0].ifs) > 1:
+                    self.err(e, "generator shape")
+                seq, tseq, mseq = self.expr(g.generators[0].iter)
+                if not tseq.startswith("list:") or mseq:
+                    self.err(e, "generator over a non-sequence")
+                v = g.generators[0].target.id
+                et = tseq[5:]
+                saved = dict(self.env)
+                self.env[v] = (v, et)
+                if fsrc == "all":
+                    if g.generators[0].ifs:
+                        self.err(e, "all() with a filter")
+                    c, t, m = self.expr(g.elt)
+                    self.env = saved
+                    if t != "bool" or m:
+                        self.err(e, "all of a non-boolean or raising test")
+                    return "(forallb (fun %s => %s) %s)" % (v, c, seq), "bool", False
+                # next(s for s in t if s is not None) / max(...): the elements that are not None, as a list of values
+                ifs = g.generators[0].ifs
+                if (ast.unparse(g.elt) != v or len(ifs) != 1 or ast.unparse(ifs[0]) != "%s is not None" % v or not et.startswith("opt:")):
+                    self.err(e, "%s() generator (only `x for x in seq if x is not None`)" % fsrc)
+                self.env = saved
+                vals = "(somes %s)" % seq
+                if fsrc == "next":
+                    return "(py_next %s)" % vals, et[4:], True
+                if et[4:] != "int":
+                    self.err(e, "max of non-int")
+                return "(py_max %s)" % vals, "int", True
             if fsrc == "any" and len(e.args) == 1 and not e.keywords and isinstance(e.args[0], ast.GeneratorExp):
                 g = e.args[0]
                 if len(g.generators) != 1 or g.generators[0].ifs or g.generators[0].is_async or not isinstance(g.generators[0].target, ast.Name):
@@ -144,7 +207,7 @@ class Tr:
                 if t != "bool" or m:
                     self.err(e, "any of a non-boolean or raising test")
                 return "(existsb (fun %s => %s) %s)" % (v, c, seq), "bool", False
-            if isinstance(e.func, ast.Attribute) and fsrc not in self.calls:
+            if isinstance(e.func, ast.Attribute) and fsrc not in self.calls and not any(k.startswith(fsrc + "@") for k in self.calls):
                 rc, rt_, rm = self.expr(e.func.value)
                 if not rm and rt_ in METHODS and e.func.attr in METHODS[rt_]:
                     fn, argts, rt, mon = METHODS[rt_][e.func.attr]
@@ -158,10 +221,15 @@ class Tr:
                             self.err(a, "method argument (type %s, wanted %s)" % (t, at))
                         cs.append(c)
                     return "(%s %s)" % (fn, " ".join(cs)), rt, mon
+            if e.args and (fsrc + "@" + ast.unparse(e.args[0])) in self.calls:
+                # a callee that dispatches on its first argument (a class): one table entry per class
+                entry = self.calls[fsrc + "@" + ast.unparse(e.args[0])]
+                e = ast.Call(func=ast.Name(id=fsrc + "@" + ast.unparse(e.args[0]), ctx=ast.Load()), args=e.args[1:], keywords=e.keywords)
+                fsrc = e.func.id
             if fsrc in self.calls:
                 entry = self.calls[fsrc]
                 fn, argts, rt, mon = entry[:4]
-                if len(entry) > 4:
+                if len(entry) > 4 and entry[4] is not None:
                     # keyword-only construction: every keyword must be present exactly once, in any order
                     if e.args or sorted(k.arg or "" for k in e.keywords) != sorted(entry[4]):
                         self.err(e, "keywords (wanted exactly %s)" % ", ".join(entry[4]))
@@ -179,6 +247,14 @@ class Tr:
                     cs.append(c)
                 return "(%s %s)" % (fn, " ".join(cs)), rt, mon
             self.err(e, "call")
+        if (isinstance(e, ast.BinOp) and isinstance(e.op, ast.Mult) and isinstance(e.left, ast.List) and len(e.left.elts) == 1
+                and isinstance(e.right, ast.Constant) and isinstance(e.right.value, int) and 0 <= e.right.value <= 64):
+            x = e.left.elts[0]
+            if isinstance(x, ast.Constant) and x.value is None:
+                return "(repeat (@None Z) %d)" % e.right.value, "list:opt:int", False
+            if isinstance(x, ast.Constant) and isinstance(x.value, int) and not isinstance(x.value, bool):
+                return "(repeat %d %d)" % (x.value, e.right.value), "list:int", False
+            self.err(e, "list repetition")
         if isinstance(e, ast.BinOp):
             a, ta, ma = self.expr(e.left)
             b, tb, mb = self.expr(e.right)
@@ -217,6 +293,32 @@ class Tr:
             for p in parts[1:]:
                 code = "(%s && %s)" % (code, p)
             return code, "bool", False
+        if (isinstance(e, ast.BoolOp) and isinstance(e.op, ast.Or) and len(e.values) == 2 and isinstance(e.values[0], ast.Compare)
+                and len(e.values[0].ops) == 1 and isinstance(e.values[0].ops[0], ast.Is) and ast.unparse(e.values[0].comparators[0]) == "None"
+                and ast.unparse(e.values[0].left) in self.env and self.env[ast.unparse(e.values[0].left)][1].startswith("opt:")):
+            # x is None or P(x): in P the name denotes the value
+            nm = ast.unparse(e.values[0].left)
+            c0, t0 = self.env[nm]
+            saved = dict(self.env)
+            self.env[nm] = (c0, t0[4:])
+            c, t, m = self.expr(e.values[1])
+            self.env = saved
+            if t != "bool" or m:
+                self.err(e, "right operand of `is None or`")
+            return "(match %s with None => true | Some %s => %s end)" % (c0, c0, c), "bool", False
+        if (isinstance(e, ast.BoolOp) and isinstance(e.op, ast.And) and len(e.values) == 2 and isinstance(e.values[0], ast.Compare)
+                and len(e.values[0].ops) == 1 and isinstance(e.values[0].ops[0], ast.IsNot) and ast.unparse(e.values[0].comparators[0]) == "None"
+                and ast.unparse(e.values[0].left) in self.env and self.env[ast.unparse(e.values[0].left)][1].startswith("opt:")):
+            # x is not None and P(x): in P the name denotes the value
+            nm = ast.unparse(e.values[0].left)
+            c0, t0 = self.env[nm]
+            saved = dict(self.env)
+            self.env[nm] = (c0, t0[4:])
+            c, t, m = self.expr(e.values[1])
+            self.env = saved
+            if t != "bool" or m:
+                self.err(e, "right operand of `is not None and`")
+            return "(match %s with None => false | Some %s => %s end)" % (c0, c0, c), "bool", False
         if isinstance(e, ast.BoolOp):
             cs = []
             for v in e.values:
@@ -236,12 +338,38 @@ class Tr:
             if t != "bool" or m:
                 self.err(e, "not of non-bool")
             return "(negb %s)" % c, "bool", False
+        if isinstance(e, ast.Subscript) and not isinstance(e.slice, ast.Slice):
+            a0, ta0, ma0 = self.expr(e.value)
+            if ta0.startswith("dict:") and not ma0:
+                kt, vt = ta0[5:].split(",", 1)
+                kx, tk, mk = self.expr(e.slice)
+                if tk != kt or mk:
+                    self.err(e, "dict key (%s)" % tk)
+                return "(dict_get %s %s)" % (a0, kx), vt, True
+            if ta0 == "pdm" and not ma0:
+                kx, tk, mk = self.expr(e.slice)
+                if tk != "kind" or mk:
+                    self.err(e, "ParsedDataMap key")
+                return "(pdm_get %s %s)" % (a0, kx), "list:pdata", False
+        if isinstance(e, ast.Subscript) and isinstance(e.slice, ast.Slice):
+            a, ta, ma = self.expr(e.value)
+            if e.slice.step is not None or e.slice.lower is None or e.slice.upper is None or not ta.startswith("list:") or ma:
+                self.err(e, "slice")
+            lo, tl, ml = self.expr(e.slice.lower)
+            hi, th, mh = self.expr(e.slice.upper)
+            if tl != "int" or th != "int" or ml or mh:
+                self.err(e, "slice bounds")
+            return "(slice_Z %s %s %s)" % (a, lo, hi), ta, False
         if isinstance(e, ast.Subscript):
             a, ta, ma = self.expr(e.value)
             i, ti, mi = self.expr(e.slice)
             if ta.startswith("list:") and ti == "int" and not ma and not mi:
                 return "(seq_get %s %s)" % (a, i), ta[5:], True
             self.err(e, "subscript")
+        if (isinstance(e, ast.IfExp) and isinstance(e.test, ast.Name) and e.test.id in self.env and self.env[e.test.id][1].startswith("list:")
+                and ast.unparse(e.body) == e.test.id + "[-1]" and ast.unparse(e.orelse) == "None"):
+            c0, t0 = self.env[e.test.id]
+            return "(last_opt %s)" % c0, "opt:" + t0[5:], False
         if isinstance(e, ast.IfExp):
             t0 = e.test
             name = None
@@ -272,12 +400,26 @@ class Tr:
                     self.err(v, "tuple element that can raise")
                 cs.append(c)
                 ts.append(t)
+            if cs and all(t == "kind" for t in ts):
+                return "[%s]" % "; ".join(cs), "list:kind", False
             return "(%s)" % ", ".join(cs), "tuple:" + ",".join(ts), False
         self.err(e, "expression")
 
     def compare(self, l, op, r, whole):
         a, ta, ma = self.expr(l)
         b, tb, mb = self.expr(r)
+        if type(op) in (ast.In, ast.NotIn) and not ma and not mb:
+            if tb.startswith("dict:") and tb[5:].split(",", 1)[0] == ta:
+                test = "(dict_mem %s %s)" % (a, b)
+            elif tb == "list:str" and ta == "str":
+                test = "(mem_str %s %s)" % (a, b)
+            elif tb == "list:pair" and ta == "pair":
+                test = "(existsb (pair_eqb %s) %s)" % (a, b)
+            else:
+                self.err(whole, "membership test on (%s, %s)" % (ta, tb))
+            return test if type(op) is ast.In else "(negb %s)" % test
+        if ta == "ndidx" and tb == "int":      # an enum member compared with an enum constant: by value
+            ta = "int"
         if ma or mb:
             self.err(whole, "comparison of operations that can raise")
         o = type(op)
@@ -293,6 +435,8 @@ class Tr:
                 return "(f_le %s fzero)" % a
             if o is ast.Lt:
                 return "(f_lt %s fzero)" % a
+        if ta == "str" and tb == "str" and o in (ast.Eq, ast.NotEq):
+            return ("(str_eqb %s %s)" if o is ast.Eq else "(negb (str_eqb %s %s))") % (a, b)
         if ta == "float" and tb == "float":
             if o is ast.NotEq:
                 return "(negb (f_eq %s %s))" % (a, b)
@@ -309,6 +453,17 @@ class Tr:
             if o is ast.Eq:
                 return "(lanes_eqb %s %s)" % (a, b)
         self.err(whole, "comparison on (%s, %s)" % (ta, tb))
+
+    def coerce(self, code, have, want, node=None):
+        if have == want or want is None:
+            return code
+        if want.startswith("opt:") and have == want[4:]:
+            return "(Some %s)" % code
+        if want.startswith("opt:") and have == "none":
+            return "None"
+        if want.startswith("opt:") and have == "some:" + want[4:]:
+            return "(Some %s)" % code
+        self.err(node or ast.Constant(value=None), "value of type %s where %s is wanted" % (have, want))
 
     # ---- sequencing of sub-expressions that can raise -------------------------------------------
     def lifted(self, e):
@@ -339,11 +494,13 @@ class Tr:
                 fsrc = ast.unparse(func)
                 if fsrc in WRAPPERS and len(x.args) == 1 and not x.keywords:
                     return ast.Call(func=func, args=[walk(x.args[0])], keywords=[])      # NewType wrappers are transparent
-                if isinstance(func, ast.Attribute) and fsrc not in self.calls:
+                if isinstance(func, ast.Attribute) and fsrc not in self.calls and not any(k.startswith(fsrc + "@") for k in self.calls):
                     func = ast.Attribute(value=lift(func.value), attr=func.attr, ctx=ast.Load())
                 if any(isinstance(a, ast.GeneratorExp) for a in x.args):
                     return x
                 return ast.Call(func=func, args=[lift(a) for a in x.args], keywords=[ast.keyword(arg=k.arg, value=lift(k.value)) for k in x.keywords])
+            if isinstance(x, ast.BinOp) and isinstance(x.left, ast.List):
+                return x
             if isinstance(x, ast.BinOp):
                 l = lift(x.left)
                 return ast.BinOp(left=l, op=x.op, right=lift(x.right))
@@ -352,6 +509,8 @@ class Tr:
                 return ast.Compare(left=l, ops=x.ops, comparators=[lift(c) for c in x.comparators])
             if isinstance(x, ast.Tuple):
                 return ast.Tuple(elts=[lift(v) for v in x.elts], ctx=ast.Load())
+            if isinstance(x, ast.Subscript) and isinstance(x.slice, ast.Slice):
+                return x
             if isinstance(x, ast.Subscript):
                 return ast.Subscript(value=lift(x.value), slice=lift(x.slice), ctx=ast.Load())
             return x        # names, constants, and the short-circuit forms (and/or, conditional expression): untouched
@@ -378,8 +537,26 @@ class Tr:
         return code
 
     # ---- statements ----------------------------------------------------------------------------
+    def call_logs(self, call):
+        fsrc = ast.unparse(call.func)
+        for key in ([fsrc + "@" + ast.unparse(call.args[0])] if call.args else []) + [fsrc]:
+            if key in self.calls:
+                return len(self.calls[key]) > 5 and bool(self.calls[key][5])
+        return False
+
     def ret(self, e):
+        if getattr(self, "logs", False):
+            binds, c, t, m = self.lifted(e)
+            parts = getattr(self, "log_parts", None) or ["log_"]
+            lg = " ++ ".join(parts)
+            if m:
+                return self.wrap(binds, "let* r_ := %s in Ok (r_, %s)" % (c, lg))
+            return self.wrap(binds, "Ok (%s, %s)" % (c, lg))
         binds, c, t, m = self.lifted(e)
+        if self.ret_type == "sustain" and t in ("int", "list:opt:int"):
+            # ComplexSustain = Ticks | SustainTuple: the model's tagged union
+            tag = "SInt" if t == "int" else "STuple"
+            c = "(let* r_ := %s in Ok (%s r_))" % (c, tag) if m else "(%s %s)" % (tag, c)
         if binds and not self.monadic_fn:
             self.err(e, "raising sub-expression in a total function")
         return self.wrap(binds, c if m else ("Ok %s" % c if self.monadic_fn else c))
@@ -392,6 +569,13 @@ class Tr:
         s, rest = stmts[0], stmts[1:]
         if isinstance(s, ast.Expr) and isinstance(s.value, ast.Constant) and isinstance(s.value.value, str):
             return self.block(rest)
+        if isinstance(s, ast.Return) and isinstance(s.value, ast.Name) and s.value.id == "__loop_state__":
+            state, types0 = self.loop_state
+            parts = []
+            for n in state:
+                c, t = self.env[n]
+                parts.append(self.coerce(c, t, types0[n], s))
+            return "Ok (%s)" % ", ".join(parts) if len(parts) > 1 else "Ok %s" % parts[0]
         if isinstance(s, ast.Return):
             if rest:
                 self.err(s, "code after return")
@@ -399,14 +583,167 @@ class Tr:
             return self.ret(s.value)
         if isinstance(s, ast.Raise):
             exc = ast.unparse(s.exc.func if isinstance(s.exc, ast.Call) else s.exc)
-            if exc != "ValueError":
+            if exc not in RAISES:
                 self.err(s, "raise of %s" % exc)
-            return "Err EValue"
+            return "Err %s" % RAISES[exc]
+        # a statement the target's table replaces by a constant of the configuration, after checking its text
+        if isinstance(s, (ast.Assign, ast.AnnAssign)) and ast.unparse(s.targets[0] if isinstance(s, ast.Assign) else s.target) in getattr(self, "const_stmts", {}):
+            nm = ast.unparse(s.targets[0] if isinstance(s, ast.Assign) else s.target)
+            want_src, code, ty = self.const_stmts[nm]
+            if ast.unparse(s.value) != want_src:
+                self.err(s, "definition of %s differs from the one the configuration is read from" % nm)
+            self.env[nm] = (code, ty)
+            return self.block(rest)
+        if getattr(self, "log_var", False):
+            # logging call assigned:   X = f(..)   ->  the callee's warnings are appended to the log in call order
+            if (isinstance(s, ast.Assign) and len(s.targets) == 1 and isinstance(s.targets[0], ast.Name) and isinstance(s.value, ast.Call) and self.call_logs(s.value)):
+                binds, c, t, m = self.lifted(s.value)
+                nm = s.targets[0].id
+                self.env[nm] = (nm, t)
+                self.nlog = getattr(self, "nlog", 0) + 1
+                lg = "lg%d_" % self.nlog
+                k = self.block(rest)
+                return self.wrap(binds, "let* (%s, %s) := %s in\n  let log_ := (log_ ++ map LUnparsable %s) in\n  %s" % (nm, lg, c, lg, k))
+            if (isinstance(s, ast.Expr) and isinstance(s.value, ast.Call) and ast.unparse(s.value.func) == "logger.warning" and len(s.value.args) == 1
+                    and isinstance(s.value.args[0], ast.Call) and ast.unparse(s.value.args[0].func) == "cls._unhandled_data_section_log_msg_tmpl.format"
+                    and len(s.value.args[0].args) == 1):
+                c, t, m = self.expr(s.value.args[0].args[0])
+                if t != "str" or m:
+                    self.err(s, "logged value")
+                k = self.block(rest)
+                return "let log_ := (log_ ++ [LUnhandled %s]) in\n  %s" % (c, k)
+        if isinstance(s, ast.Continue) and getattr(self, "loop_state", None) is not None:
+            return self.block([ast.Return(value=ast.Name(id="__loop_state__", ctx=ast.Load()))])
+        # a, b = PAIR   (a tuple-typed name)
+        if (isinstance(s, ast.Assign) and len(s.targets) == 1 and isinstance(s.targets[0], ast.Tuple) and isinstance(s.value, ast.Name)
+                and s.value.id in self.env and self.env[s.value.id][1] == "pair"):
+            names = [x.id for x in s.targets[0].elts]
+            if len(names) != 2:
+                self.err(s, "pair unpacking")
+            for n in names:
+                self.env[n] = (n, "str")
+            k = self.block(rest)
+            return "let '(%s, %s) := %s in\n  %s" % (names[0], names[1], self.env[s.value.id][0], k)
+        # T[I][D] = V   on the instrument-track map
+        if (isinstance(s, ast.Assign) and len(s.targets) == 1 and isinstance(s.targets[0], ast.Subscript) and isinstance(s.targets[0].value, ast.Subscript)
+                and isinstance(s.targets[0].value.value, ast.Name) and self.env.get(s.targets[0].value.value.id, ("", ""))[1] == "tracks"):
+            tn = s.targets[0].value.value.id
+            i, ti, mi = self.expr(s.targets[0].value.slice)
+            d, td, md = self.expr(s.targets[0].slice)
+            v, tv, mv = self.expr(s.value)
+            if mi or md or mv or ti != "str" or td != "str" or tv != "itrack":
+                self.err(s, "track store")
+            k = self.block(rest)
+            return "let %s := (tracks_set %s %s %s %s) in\n  %s" % (tn, i, d, v, self.env[tn][0], k)
+        # for K, V in D.items(): <body>      (insertion order)
+        if (isinstance(s, ast.For) and isinstance(s.target, ast.Tuple) and len(s.target.elts) == 2 and all(isinstance(x, ast.Name) for x in s.target.elts)
+                and isinstance(s.iter, ast.Call) and isinstance(s.iter.func, ast.Attribute) and s.iter.func.attr == "items" and not s.iter.args and not s.orelse and rest):
+            dct, tdct, mdct = self.expr(s.iter.func.value)
+            if not tdct.startswith("dict:") or mdct:
+                self.err(s, "items() of a non-dict")
+            kt, vt = tdct[5:].split(",", 1)
+            kv, vv = s.target.elts[0].id, s.target.elts[1].id
+            def stored(stmts):
+                names = []
+                for st in stmts:
+                    if isinstance(st, ast.Assign) and len(st.targets) == 1:
+                        tg = st.targets[0]
+                        while isinstance(tg, ast.Subscript):
+                            tg = tg.value
+                        if isinstance(tg, ast.Name) and tg.id not in names:
+                            names.append(tg.id)
+                    elif isinstance(st, ast.Expr) and "logger.warning" in ast.unparse(st):
+                        if "log_" not in names:
+                            names.append("log_")
+                    elif isinstance(st, ast.If):
+                        for n in stored(st.body) + stored(st.orelse):
+                            if n not in names:
+                                names.append(n)
+                return names
+            cand = stored(s.body)
+            if any(isinstance(n, ast.Call) and self.call_logs(n) for st in s.body for n in ast.walk(st)) and "log_" not in cand:
+                cand.append("log_")
+            state = [n for n in cand if n in self.env]
+            if not state:
+                self.err(s, "items() loop state")
+            types0 = {n: self.env[n][1] for n in state}
+            env0 = dict(self.env)
+            for n in state:
+                self.env[n] = (n, types0[n])
+            self.env[kv] = (kv, kt)
+            self.env[vv] = (vv, vt)
+            self.loop_state = (state, types0)
+            synth = ast.Return(value=ast.Name(id="__loop_state__", ctx=ast.Load()))
+            saved_m, self.monadic_fn = self.monadic_fn, True
+            saved_p, self.procedure = getattr(self, "procedure", False), False
+            body = self.block(list(s.body) + [synth])
+            self.monadic_fn, self.procedure = saved_m, saved_p
+            self.loop_state = None
+            self.env = env0
+            for n in state:
+                self.env[n] = (n, types0[n])
+            tup = "(%s)" % ", ".join(env0[n][0] for n in state) if len(state) > 1 else env0[state[0]][0]
+            pat = "'(%s)" % ", ".join(state) if len(state) > 1 else state[0]
+            bpat = "(%s)" % ", ".join(state) if len(state) > 1 else state[0]
+            k = self.block(rest)
+            return "let* %s := foldM (fun %s '(%s, %s) =>\n  %s) %s %s in\n  %s" % (bpat, pat, kv, vv, body, dct, tup, k)
+        # M = <regex>.match(LINE); if not M: raise RegexNotMatchError(...)      then  M.group(1)  is the captured text
+        if (isinstance(s, ast.Assign) and len(s.targets) == 1 and isinstance(s.targets[0], ast.Name) and isinstance(s.value, ast.Call)
+                and ast.unparse(s.value.func) in getattr(self, "regex_calls", {}) and rest and isinstance(rest[0], ast.If) and not rest[0].orelse
+                and ast.unparse(rest[0].test) == "not " + s.targets[0].id and len(rest[0].body) == 1 and isinstance(rest[0].body[0], ast.Raise)):
+            fn = self.regex_calls[ast.unparse(s.value.func)]
+            exc = ast.unparse(rest[0].body[0].exc.func if isinstance(rest[0].body[0].exc, ast.Call) else rest[0].body[0].exc)
+            if exc != "RegexNotMatchError" or len(s.value.args) != 1:
+                self.err(s, "regex match idiom")
+            a, ta, ma = self.expr(s.value.args[0])
+            if ta != "str" or ma:
+                self.err(s, "regex match argument")
+            m = s.targets[0].id
+            self.env["%s.group(1)" % m] = (m + "_g1", "str")
+            k = self.block(rest[1:])
+            return "let* %s_g1 := (%s %s) in\n  %s" % (m, fn, a, k)
+        # X = None  /  X = value   for a variable whose type is declared for this function (optionals)
+        if (isinstance(s, ast.Assign) and len(s.targets) == 1 and isinstance(s.targets[0], ast.Name) and s.targets[0].id in getattr(self, "var_types", {})):
+            nm = s.targets[0].id
+            want = self.var_types[nm]
+            c, t, m = self.expr(s.value)
+            if m:
+                self.err(s, "raising value assigned to a declared variable")
+            if t == "none":
+                c, t = "(@None %s)" % COQ_TYPES[want[4:]], want
+            elif self.coerce("x", t, want, s) is None:
+                pass
+            self.env[nm] = (nm, t)
+            k = self.block(rest)
+            return "let %s := %s in\n  %s" % (nm, c, k)
+        # D: dict[...] = dict()
+        if isinstance(s, ast.AnnAssign) and isinstance(s.target, ast.Name) and ast.unparse(s.value) == "dict()" and ast.unparse(s.annotation) in DICT_ANN:
+            kt, vt, coq = DICT_ANN[ast.unparse(s.annotation)]
+            self.env[s.target.id] = (s.target.id, "dict:%s,%s" % (kt, vt))
+            k = self.block(rest)
+            return "let %s := (@nil %s) in\n  %s" % (s.target.id, coq, k)
+        # D[K] = V   (insertion-ordered dict: overwrite in place, else append)
+        if (isinstance(s, ast.Assign) and len(s.targets) == 1 and isinstance(s.targets[0], ast.Subscript) and isinstance(s.targets[0].value, ast.Name)
+                and s.targets[0].value.id in self.env and self.env[s.targets[0].value.id][1].startswith("dict:")):
+            dn = s.targets[0].value.id
+            kt, vt = self.env[dn][1][5:].split(",", 1)
+            kc, ktt, km = self.expr(s.targets[0].slice)
+            vc, vtt, vm = self.expr(s.value)
+            if km or vm or ktt.replace("some:", "") != kt or vtt != vt:
+                self.err(s, "dict store (%s -> %s)" % (ktt, vtt))
+            k = self.block(rest)
+            return "let %s := (dict_set %s %s %s) in\n  %s" % (dn, kc, vc, self.env[dn][0], k)
         if isinstance(s, (ast.Assign, ast.AnnAssign)) and not isinstance(s.value, ast.List):
             tgt = s.targets[0] if isinstance(s, ast.Assign) else s.target
             if isinstance(s, ast.Assign) and len(s.targets) != 1:
                 self.err(s, "assignment target")
             binds, c, t, m = self.lifted(s.value)
+            logging_call = isinstance(s.value, ast.Call) and self.call_logs(s.value)
+            if logging_call:
+                self.logs = True
+                self.nlog = getattr(self, "nlog", 0) + 1
+                lg = "lg%d_" % self.nlog
+                self.log_parts = getattr(self, "log_parts", []) + [lg]
             if isinstance(tgt, ast.Tuple):
                 # a, b = <call returning a tuple>
                 if not t.startswith("tuple:") or not all(isinstance(x, ast.Name) for x in tgt.elts):
@@ -423,12 +760,247 @@ class Tr:
                         names.append(x.id)
                 k = self.block(rest)
                 pat = "(%s)" % ", ".join(names)
+                if logging_call:
+                    pat = "(%s, %s)" % (pat, lg)
                 return self.wrap(binds, ("let* %s := %s in\n  %s" if m else "let '%s := %s in\n  %s") % (pat, c, k))
             if not isinstance(tgt, ast.Name):
                 self.err(s, "assignment target")
             self.env[tgt.id] = (tgt.id, t)
             k = self.block(rest)
+            if logging_call:
+                return self.wrap(binds, "let* (%s, %s) := %s in\n  %s" % (tgt.id, lg, c, k))
             return self.wrap(binds, ("let* %s := %s in\n  %s" if m else "let %s := %s in\n  %s") % (tgt.id, c, k))
+        # the first-match dispatch loop with a warning for lines nobody claims:
+        #   for X in LINES:
+        #       for T in TYPES:
+        #           try: D = T.from_chart_line(X)
+        #           except RegexNotMatchError: continue
+        #           M[T].append(D); break
+        #       else: logger.warning(TEMPLATE.format(X, ...))
+        if (isinstance(s, ast.For) and isinstance(s.target, ast.Name) and not s.orelse and len(s.body) == 1 and isinstance(s.body[0], ast.For)
+                and isinstance(s.body[0].target, ast.Name) and len(s.body[0].body) == 3 and len(s.body[0].orelse) == 1 and rest):
+            inner = s.body[0]
+            tr, st2, br = inner.body
+            x, tv = s.target.id, inner.target.id
+            ok = (isinstance(tr, ast.Try) and len(tr.body) == 1 and isinstance(tr.body[0], ast.Assign) and len(tr.body[0].targets) == 1
+                  and isinstance(tr.body[0].targets[0], ast.Name) and len(tr.handlers) == 1 and ast.unparse(tr.handlers[0].type) == "RegexNotMatchError"
+                  and len(tr.handlers[0].body) == 1 and isinstance(tr.handlers[0].body[0], ast.Continue) and not tr.orelse and not tr.finalbody
+                  and isinstance(br, ast.Break) and isinstance(st2, ast.Expr))
+            if ok:
+                dv = tr.body[0].targets[0].id
+                call = tr.body[0].value
+                ok = (ast.unparse(call) == "%s.from_chart_line(%s)" % (tv, x)
+                      and ast.unparse(st2.value).replace(" ", "") in ("%s[%s].append(%s)" % (n, tv, dv) for n in self.env if self.env[n][1] == "pdm"))
+                w = inner.orelse[0]
+                ok = ok and (isinstance(w, ast.Expr) and isinstance(w.value, ast.Call) and ast.unparse(w.value.func) == "logger.warning"
+                             and len(w.value.args) == 1 and isinstance(w.value.args[0], ast.Call) and ast.unparse(w.value.args[0].func).endswith(".format")
+                             and w.value.args[0].args and ast.unparse(w.value.args[0].args[0]) == x)
+            if not ok:
+                self.err(s, "nested loop shape (only the first-match dispatch loop)")
+            lines, tl, ml = self.expr(s.iter)
+            types, tt, mt = self.expr(inner.iter)
+            if tl != "list:str" or tt != "list:kind" or ml or mt:
+                self.err(s, "dispatch loop sequences")
+            mname = ast.unparse(st2.value.func.value.value)
+            self.logs = True
+            k = self.block(rest)
+            return ("let* (%s, log_) := foldM (fun '(%s, log_) %s =>\n  let* r_ := first_match (fun %s => dec c %s %s) %s in\n  match r_ with\n"
+                    "  | Some (%s, %s) => Ok (pdm_append %s %s %s, log_)\n  | None => Ok (%s, log_ ++ [%s])\n  end) %s (%s, []) in\n  %s"
+                    % (mname, mname, x, tv, tv, x, types, tv, dv, mname, tv, dv, mname, x, lines, self.env[mname][0], k))
+        # for I, X in enumerate(SEQ): <body assigning loop-carried variables>
+        if (isinstance(s, ast.For) and isinstance(s.target, ast.Tuple) and len(s.target.elts) == 2 and all(isinstance(x, ast.Name) for x in s.target.elts)
+                and isinstance(s.iter, ast.Call) and ast.unparse(s.iter.func) == "enumerate" and len(s.iter.args) == 1 and not s.orelse and rest):
+            seq, tseq, mseq = self.expr(s.iter.args[0])
+            if not tseq.startswith("list:") or mseq:
+                self.err(s, "enumerate over a non-sequence")
+            iv, xv = s.target.elts[0].id, s.target.elts[1].id
+            def assigned(stmts):
+                names = []
+                for st in stmts:
+                    if isinstance(st, ast.Assign) and len(st.targets) == 1:
+                        tg = st.targets[0]
+                        if isinstance(tg, ast.Name) and tg.id not in names:
+                            names.append(tg.id)
+                        if isinstance(tg, ast.Subscript) and isinstance(tg.value, ast.Name) and tg.value.id not in names:
+                            names.append(tg.value.id)
+                    elif isinstance(st, ast.If):
+                        for n in assigned(st.body) + assigned(st.orelse):
+                            if n not in names:
+                                names.append(n)
+                return names
+            state = [n for n in assigned(s.body) if n in self.env]
+            if len(state) < 2:
+                self.err(s, "enumerate loop state")
+            types0 = {n: self.env[n][1] for n in state}
+            env0 = dict(self.env)
+            for n in state:
+                self.env[n] = (n, types0[n])
+            self.env[iv] = (iv, "int")
+            self.env[xv] = (xv, tseq[5:])
+            self.loop_state = (state, types0)
+            synth = ast.Return(value=ast.Name(id="__loop_state__", ctx=ast.Load()))
+            saved_m, self.monadic_fn = self.monadic_fn, True
+            saved_p, self.procedure = getattr(self, "procedure", False), False
+            body = self.block(list(s.body) + [synth])
+            self.monadic_fn, self.procedure = saved_m, saved_p
+            self.loop_state = None
+            self.env = env0
+            for n in state:
+                self.env[n] = (n, types0[n])
+            tup = "(%s)" % ", ".join(env0[n][0] for n in state)
+            pat = "(%s)" % ", ".join(state)
+            k = self.block(rest)
+            return "let* %s := foldM (fun '%s '(%s, %s) =>\n  %s) (enumerate_Z %s) %s in\n  %s" % (pat, pat, iv, xv, body, seq, tup, k)
+        # for V in SEQ: if C: return E            (followed by more code)
+        if (isinstance(s, ast.For) and isinstance(s.target, ast.Name) and not s.orelse and len(s.body) == 1 and isinstance(s.body[0], ast.If)
+                and not s.body[0].orelse and len(s.body[0].body) == 1 and isinstance(s.body[0].body[0], ast.Return) and rest
+                and not (isinstance(s.iter, ast.Call) and ast.unparse(s.iter.func) == "range")):
+            seq, tseq, mseq = self.expr(s.iter)
+            if not tseq.startswith("list:") or mseq:
+                self.err(s, "loop over a non-sequence")
+            v = s.target.id
+            saved = dict(self.env)
+            self.env[v] = (v, tseq[5:])
+            c, t, m = self.expr(s.body[0].test)
+            if t != "bool" or m:
+                self.err(s, "loop test")
+            found = self.ret(s.body[0].body[0].value)
+            self.env = saved
+            k = self.block(rest)
+            return "match find (fun %s => %s) %s with\n  | Some %s => %s\n  | None =>\n  %s\n  end" % (v, c, seq, v, found, k)
+        # for V in [filter(lambda V: P, SEQ) | SEQ]:  [try:] L[I] = E [except IndexError: pass]
+        if isinstance(s, ast.For) and isinstance(s.target, ast.Name) and not s.orelse and len(s.body) == 1 and rest:
+            b = s.body[0]
+            catch = False
+            if (isinstance(b, ast.Try) and len(b.body) == 1 and len(b.handlers) == 1 and not b.orelse and not b.finalbody
+                    and ast.unparse(b.handlers[0].type) == "IndexError" and len(b.handlers[0].body) == 1 and isinstance(b.handlers[0].body[0], ast.Pass)):
+                catch, b = True, b.body[0]
+            if (isinstance(b, ast.Assign) and len(b.targets) == 1 and isinstance(b.targets[0], ast.Subscript) and isinstance(b.targets[0].value, ast.Name)
+                    and b.targets[0].value.id in self.env and self.env[b.targets[0].value.id][1].startswith("list:")):
+                lst = b.targets[0].value.id
+                v = s.target.id
+                it = s.iter
+                pred = None
+                if (isinstance(it, ast.Call) and ast.unparse(it.func) == "filter" and len(it.args) == 2 and isinstance(it.args[0], ast.Lambda)
+                        and len(it.args[0].args.args) == 1):
+                    pred, it = it.args[0], it.args[1]
+                seq, tseq, mseq = self.expr(it)
+                if not tseq.startswith("list:") or mseq:
+                    self.err(s, "loop over a non-sequence")
+                saved = dict(self.env)
+                self.env[v] = (v, tseq[5:])
+                self.env[lst] = (lst, saved[lst][1])
+                i, ti, mi = self.expr(b.targets[0].slice)
+                x, tx, mx = self.expr(b.value)
+                et = saved[lst][1][5:]
+                if et.startswith("opt:") and tx == et[4:]:
+                    x, tx = "(Some %s)" % x, et
+                if ti != "int" or mi or mx or tx != et:
+                    self.err(b, "indexed assignment (%s[%s] = %s)" % (et, ti, tx))
+                step = "list_set %s %s %s" % (lst, i, x)
+                if catch:
+                    step = "catch_index (%s) %s" % (step, lst)
+                if pred is not None:
+                    pv = pred.args.args[0].arg
+                    self.env[pv] = (v, tseq[5:])
+                    pc, pt, pm = self.expr(pred.body)
+                    if pt != "bool" or pm:
+                        self.err(pred, "filter predicate")
+                    step = "if %s then %s else Ok %s" % (pc, step, lst)
+                self.env = saved
+                k = self.block(rest)
+                return "let* %s := foldM (fun %s %s => %s) %s %s in\n  %s" % (lst, lst, v, step, seq, saved[lst][0], k)
+        # if isinstance(X, int): <returns>      (X of the union type `sustain`)
+        if (isinstance(s, ast.If) and not s.orelse and isinstance(s.test, ast.Call) and ast.unparse(s.test.func) == "isinstance" and len(s.test.args) == 2
+                and ast.unparse(s.test.args[1]) == "int" and ast.unparse(s.test.args[0]) in self.env and self.env[ast.unparse(s.test.args[0])][1] == "sustain"):
+            nm = ast.unparse(s.test.args[0])
+            c0, _ = self.env[nm]
+            saved = dict(self.env)
+            self.env[nm] = (c0, "int")
+            then = self.block(s.body)
+            self.env[nm] = (c0, "list:opt:int")
+            k = self.block(rest)
+            self.env = saved
+            return "match %s with\n  | SInt %s => %s\n  | STuple %s =>\n  %s\n  end" % (c0, c0, then, c0, k)
+        if isinstance(s, ast.AugAssign) and isinstance(s.target, ast.Name) and isinstance(s.op, ast.Add):
+            nm = s.target.id
+            if nm not in self.env or self.env[nm][1] != "int":
+                self.err(s, "augmented assignment")
+            c, t, m = self.expr(s.value)
+            if t != "int" or m:
+                self.err(s, "augmented assignment operand")
+            k = self.block(rest)
+            return "let %s := (%s + %s) in\n  %s" % (nm, self.env[nm][0], c, k)
+        if (isinstance(s, ast.Expr) and isinstance(s.value, ast.Call) and isinstance(s.value.func, ast.Attribute) and s.value.func.attr == "append"
+                and isinstance(s.value.func.value, ast.Name) and len(s.value.args) == 1 and not s.value.keywords):
+            nm = s.value.func.value.id
+            if nm not in self.env or not self.env[nm][1].startswith("list:"):
+                self.err(s, "append to a non-list")
+            c, t, m = self.expr(s.value.args[0])
+            if m or t != self.env[nm][1][5:]:
+                self.err(s, "appended element (type %s)" % t)
+            k = self.block(rest)
+            return "let %s := (%s ++ [%s]) in\n  %s" % (nm, self.env[nm][0], c, k)
+        if isinstance(s, ast.While) and not s.orelse:
+            def assigned(stmts):
+                names = []
+                def add(n):
+                    if n not in names:
+                        names.append(n)
+                for st in stmts:
+                    if isinstance(st, ast.Assign) and len(st.targets) == 1:
+                        tg = st.targets[0]
+                        for n in (tg.elts if isinstance(tg, ast.Tuple) else [tg]):
+                            if isinstance(n, ast.Name):
+                                add(n.id)
+                    elif isinstance(st, ast.AugAssign) and isinstance(st.target, ast.Name):
+                        add(st.target.id)
+                    elif (isinstance(st, ast.Expr) and isinstance(st.value, ast.Call) and isinstance(st.value.func, ast.Attribute)
+                          and st.value.func.attr == "append" and isinstance(st.value.func.value, ast.Name)):
+                        add(st.value.func.value.id)
+                    elif isinstance(st, (ast.While, ast.If)):
+                        for n in assigned(st.body) + assigned(getattr(st, "orelse", [])):
+                            add(n)
+                return names
+            state = [n for n in assigned(s.body) if n in self.env]
+            if not state:
+                self.err(s, "while loop without loop-carried state")
+            fuel = getattr(self, "fuel", None)
+            if not fuel:
+                self.err(s, "while loop in a function without a declared fuel bound")
+            types0 = {n: self.env[n][1] for n in state}
+            pat = "'(%s)" % ", ".join(state) if len(state) > 1 else state[0]
+            tup = "(%s)" % ", ".join(self.env[n][0] for n in state) if len(state) > 1 else self.env[state[0]][0]
+            env0 = dict(self.env)
+            for n in state:
+                self.env[n] = (n, types0[n])
+            cond = self.cond_m(s.test)
+            synth = ast.Return(value=ast.Tuple(elts=[ast.Name(id=n, ctx=ast.Load()) for n in state], ctx=ast.Load()) if len(state) > 1
+                               else ast.Name(id=state[0], ctx=ast.Load()))
+            saved_m, self.monadic_fn = self.monadic_fn, True
+            saved_p, self.procedure = getattr(self, "procedure", False), False
+            body = self.block(list(s.body) + [synth])
+            self.monadic_fn, self.procedure = saved_m, saved_p
+            for n in state:
+                if self.env_after.get(n) != types0[n]:
+                    self.err(s, "loop-carried %s changes type (%s -> %s)" % (n, types0[n], self.env_after.get(n)))
+            self.env = env0
+            for n in state:
+                self.env[n] = (n, types0[n])
+            if not rest:
+                self.err(s, "while loop at the end of a block")
+            k = self.block(rest)
+            bpat = "(%s)" % ", ".join(state) if len(state) > 1 else state[0]
+            return "let* %s := while_fuel %s (fun %s => %s) (fun %s =>\n  %s) %s in\n  %s" % (bpat, fuel, pat, cond, pat, body, tup, k)
+        # x: list[T] = []   (not followed by the accumulation loop below)
+        if (isinstance(s, ast.AnnAssign) and isinstance(s.value, ast.List) and not s.value.elts and isinstance(s.target, ast.Name)
+                and not (rest and isinstance(rest[0], ast.For))):
+            ann = ast.unparse(s.annotation)
+            if ann not in LIST_ANN:
+                self.err(s, "list annotation")
+            self.env[s.target.id] = (s.target.id, "list:" + LIST_ANN[ann])
+            k = self.block(rest)
+            return "let %s := (@nil %s) in\n  %s" % (s.target.id, COQ_TYPES[LIST_ANN[ann]], k)
         # events = []
         # for D in DATAS:
         #     P = events[-1] if events else None
@@ -462,7 +1034,32 @@ class Tr:
                 return "let* %s := fold_prev (fun %s %s => %s) %s in\n  %s" % (acc.id, d, pv, body, seq, k)
             self.err(s, "accumulation loop shape")
         # if C: <assignments> else: <assignments>   followed by code: the branches are joined on the names both assign
-        if isinstance(s, ast.If) and s.orelse and rest:
+        if isinstance(s, ast.If) and rest and getattr(self, "loop_state", None) is not None:
+            def ends(stmts):
+                return bool(stmts) and isinstance(stmts[-1], (ast.Return, ast.Raise))
+            if not ends(s.body) or (s.orelse and not ends(s.orelse)):
+                # inside a loop body: every path runs into the rest (the synthetic return of the loop state)
+                t = s.test
+                saved = dict(self.env)
+                if (isinstance(t, ast.Compare) and len(t.ops) == 1 and isinstance(t.ops[0], ast.Is) and ast.unparse(t.comparators[0]) == "None"
+                        and ast.unparse(t.left) in self.env and self.env[ast.unparse(t.left)][1].startswith("opt:")):
+                    name = ast.unparse(t.left)
+                    c0, t0 = self.env[name]
+                    then = self.block(list(s.body) + rest)
+                    self.env = dict(saved)
+                    self.env[name] = (c0, t0[4:])
+                    els = self.block(list(s.orelse) + rest)
+                    self.env = saved
+                    return "match %s with\n  | None => %s\n  | Some %s =>\n  %s\n  end" % (c0, then, c0, els)
+                binds, c, ty, m = self.lifted(t)
+                if ty != "bool" or m or binds:
+                    self.err(t, "condition")
+                then = self.block(list(s.body) + rest)
+                self.env = dict(saved)
+                els = self.block(list(s.orelse) + rest)
+                self.env = saved
+                return "if %s then %s else\n  %s" % (c, then, els)
+        if isinstance(s, ast.If) and s.orelse and rest and getattr(self, "loop_state", None) is None:
             def assigned(stmts):
                 names = []
                 for st in stmts:
@@ -585,6 +1182,18 @@ class Tr:
             return self.wrap(binds, "if %s then %s else\n  %s" % (c, then, self.block(rest)))
         self.err(s, "statement")
 
+    def cond_m(self, test):
+        if isinstance(test, ast.BoolOp) and isinstance(test.op, ast.And):
+            code = None
+            for v in reversed(test.values):
+                c = self.cond_m(v)
+                code = c if code is None else "let* b_ := %s in if b_ then %s else Ok false" % (c, code)
+            return code
+        binds, c, t, m = self.lifted(test)
+        if t != "bool" or m:
+            self.err(test, "loop condition")
+        return self.wrap(binds, "Ok %s" % c).replace("\n  ", " ")
+
     def cond_result(self, test):
         """A loop test as a `result bool`: comparisons whose operands may raise (indexing) are sequenced."""
         if isinstance(test, ast.Compare) and len(test.ops) == 1:
@@ -628,7 +1237,13 @@ class Tr:
         self.procedure = procedure
         self.env_after = {}
         self.narrow = narrow or {}
-        body = self.block(fn.body)
+        if getattr(self, "log_var", False):
+            self.logs = True
+            self.log_parts = ["log_"]
+            self.env["log_"] = ("log_", "list:log")
+            body = "let log_ := (@nil log) in\n  " + self.block(fn.body)
+        else:
+            body = self.block(fn.body)
         return "Definition %s %s :=\n  %s." % (self.name, " ".join("(%s : %s)" % p for p in params), body)
 
 
@@ -749,7 +1364,207 @@ def group_note():
     t = Tr("leaf_note_from_parsed_data", env, calls, "tuple")
     out.append(t.function(f, [("c", "cfg"), ("datas", "list ndata"), ("prev_event", "option note_event"), ("sps", "list special_event"),
                               ("B", "bpm_events"), ("hint", "Z"), ("cursor", "Z")], True))
+    # InstrumentTrack._build_note_events_from_data: the two nested while loops that cut the note lines into runs of equal tick
+    # and thread the previous event, the tempo hint and the star-power cursor through NoteEvent.from_parsed_data
+    f = find_function(tree, "InstrumentTrack._build_note_events_from_data")
+    env = {"datas": ("datas", "list:nd"), "star_power_events": ("sps", "list:sp"), "bpm_events": ("B", "bpmevents")}
+    calls = {"NoteEvent.from_parsed_data": ("leaf_note_from_parsed_data c", ["list:nd", "opt:note_event", "list:sp", "bpmevents", "int", "int"], "tuple:note_event,int,int", True)}
+    t = Tr("leaf_build_note_events", env, calls, "list:note_event")
+    t.fuel = "(S (length datas))"
+    out.append(t.function(f, [("c", "cfg"), ("datas", "list ndata"), ("sps", "list special_event"), ("B", "bpm_events")], True))
     return out
+
+
+def group_sustain():
+    tree = ast.parse(open(os.path.join(REPO, "chartparse", "instrument.py")).read())
+    out = []
+    idx = lambda m: str(enum_int(tree, "NoteTrackIndex", m))
+    # _refined_sustain_tuple
+    f = find_function(tree, "_refined_sustain_tuple")
+    out.append(Tr("leaf_refined_sustain_tuple", {"sustain_tuple": ("sustain_tuple", "list:opt:int")}, {}, "sustain").function(
+        f, [("sustain_tuple", "list (option Z)")], True))
+    # complex_sustain_from_parsed_datas
+    f = find_function(tree, "complex_sustain_from_parsed_datas")
+    env = {"datas": ("datas", "list:nd"), "NoteTrackIndex.OPEN": (idx("OPEN"), "int")}
+    calls = {"_refined_sustain_tuple": ("leaf_refined_sustain_tuple", ["list:opt:int"], "sustain", True)}
+    out.append(Tr("leaf_complex_sustain", env, calls, "sustain").function(f, [("datas", "list ndata")], True))
+    # NoteEvent._longest_sustain
+    f = find_function(tree, "NoteEvent._longest_sustain")
+    out.append(Tr("leaf_longest_sustain", {"sustain": ("sustain", "sustain")}, {}, "int").function(f, [("sustain", "sustain")], True))
+    # Note.from_parsed_datas
+    f = find_function(tree, "Note.from_parsed_datas")
+    calls = {"cls": ("lanes_of_bits", ["list:int"], "lanes", False)}
+    out.append(Tr("leaf_note_from_parsed_datas", {"datas": ("datas", "list:nd")}, calls, "lanes").function(f, [("datas", "list ndata")], True))
+    return out
+
+
+SUSTAIN_HEADER = """From CP Require Import Base.Prelude Base.Cfg Base.Loops Base.While Base.Float64 Model.Sync Model.Instrument Gen.Leaf_tick Gen.Leaf_special.
+Open Scope Z_scope.
+(* Note(tuple(n)): the enum member whose value is the 0/1 tuple; the model keeps the lanes as booleans *)
+Definition lanes_of_bits (n : list Z) : list bool := map (fun z => negb (z =? 0)) n.
+"""
+
+
+def group_chart():
+    tree = ast.parse(open(os.path.join(REPO, "chartparse", "chart.py")).read())
+    f = find_function(tree, "Chart._partition_lines_by_data_section")
+    t = Tr("leaf_partition", {"lines": ("lines", "list:str")}, {}, "dict:str,list:str")
+    t.var_types = {"curr_header_tag": "opt:str", "curr_first_line_index": "opt:int", "curr_last_line_index": "opt:int"}
+    t.regex_calls = {"cls._header_tag_regex_prog.match": "dec_header c"}
+    return [t.function(f, [("c", "cfg"), ("lines", "list str")], True)]
+
+
+CHART_HEADER = """From CP Require Import Base.Prelude Base.Str Base.Cfg Base.Loops Base.While Model.Lines Model.Chart.
+Open Scope Z_scope.
+"""
+
+
+def group_dispatch():
+    tree = ast.parse(open(os.path.join(REPO, "chartparse", "track.py")).read())
+    f = find_function(tree, "parse_data_from_chart_lines")
+    t = Tr("leaf_parse_data_from_chart_lines", {"types": ("types", "list:kind"), "lines": ("lines", "list:str")},
+           {"ParsedDataMap": ("pdm_empty", [], "pdm", False)}, "pdm")
+    return [t.function(f, [("c", "cfg"), ("types", "list kind"), ("lines", "list str")], True)]
+
+
+DISPATCH_HEADER = """From CP Require Import Base.Prelude Base.Str Base.Cfg Base.Loops Base.While Model.Lines.
+Open Scope Z_scope.
+(* ParsedDataMap: a defaultdict(list) keyed by the ParsedData class; m[t].append(d) *)
+Definition pdm := list (kind * list pdata).
+Definition pdm_empty : pdm := [].
+Definition pdm_get (m : pdm) (k : kind) : list pdata :=
+  match find (fun p => kind_eqb k (fst p)) m with Some p => snd p | None => [] end.
+Fixpoint pdm_append (m : pdm) (k : kind) (d : pdata) : pdm :=
+  match m with
+  | [] => [(k, [d])]
+  | (k', ds) :: m' => if kind_eqb k k' then (k', ds ++ [d]) :: m' else (k', ds) :: pdm_append m' k d
+  end.
+(* the inner for/try/continue/break: the first type whose recogniser accepts the line; RegexNotMatchError moves on, any other
+   exception escapes *)
+Fixpoint first_match {T D} (f : T -> result D) (ts : list T) : result (option (T * D)) :=
+  match ts with
+  | [] => Ok None
+  | t :: ts' => match f t with
+                | Ok d => Ok (Some (t, d))
+                | Err ERegexNotMatch => first_match f ts'
+                | Err e => Err e
+                end
+  end.
+"""
+
+
+KIND_ENV = {"NoteEvent.ParsedData": ("KNote", "kind"), "StarPowerEvent.ParsedData": ("KSP", "kind"), "TrackEvent.ParsedData": ("KTev", "kind"),
+            "BPMEvent.ParsedData": ("KBpm", "kind"), "TimeSignatureEvent.ParsedData": ("KTs", "kind"), "AnchorEvent.ParsedData": ("KAnchor", "kind"),
+            "TextEvent.ParsedData": ("KText", "kind"), "SectionEvent.ParsedData": ("KSection", "kind"), "LyricEvent.ParsedData": ("KLyric", "kind")}
+
+
+def group_tracks():
+    out = []
+    instr = ast.parse(open(os.path.join(REPO, "chartparse", "instrument.py")).read())
+    sync = ast.parse(open(os.path.join(REPO, "chartparse", "sync.py")).read())
+    glob = ast.parse(open(os.path.join(REPO, "chartparse", "globalevents.py")).read())
+    pd3 = "tuple:list:pdata,list:pdata,list:pdata"
+    parse_call = {"chartparse.track.parse_data_from_chart_lines": ("leaf_parse_data_from_chart_lines c", ["list:kind", "list:str"], "pdm", True, None, True)}
+    # the three _parse_data_from_chart_lines: which kinds, in which order of trial, and which list goes where
+    for tree, cls_, name in ((instr, "InstrumentTrack", "leaf_instr_parse_data"), (sync, "SyncTrack", "leaf_sync_parse_data"), (glob, "GlobalEventsTrack", "leaf_globals_parse_data")):
+        f = find_function(tree, cls_ + "._parse_data_from_chart_lines")
+        env = dict(KIND_ENV)
+        env["lines"] = ("lines", "list:str")
+        out.append(Tr(name, env, parse_call, pd3).function(f, [("c", "cfg"), ("lines", "list str")], True))
+    B = "bpmevents"
+    bef = "chartparse.track.build_events_from_data@"
+    # InstrumentTrack.from_chart_lines
+    f = find_function(instr, "InstrumentTrack.from_chart_lines")
+    env = {"instrument": ("instrument", "str"), "difficulty": ("difficulty", "str"), "lines": ("lines", "list:str"), "bpm_events": ("B", B)}
+    calls = {"cls._parse_data_from_chart_lines": ("leaf_instr_parse_data c", ["list:str"], pd3, True, None, True),
+             bef + "StarPowerEvent": ("build_sp_events", ["list:pdata", B], "list:sp", True),
+             bef + "TrackEvent": ("build_tev_events", ["list:pdata", B], "list:tev", True),
+             "cls._build_note_events_from_data": ("build_note_events_py c", ["list:pdata", "list:sp", B], "list:note_event", True),
+             "cls": ("mk_itrack", ["str", "str", "list:note_event", "list:sp", "list:tev"], "itrack", False,
+                     ["instrument", "difficulty", "note_events", "star_power_events", "track_events"])}
+    out.append(Tr("leaf_instr_from_chart_lines", env, calls, "itrack").function(
+        f, [("c", "cfg"), ("instrument", "str"), ("difficulty", "str"), ("lines", "list str"), ("B", "bpm_events")], True))
+    # SyncTrack.__post_init__ and from_chart_lines
+    f = find_function(sync, "SyncTrack.__post_init__")
+    env = {"self.time_signature_events": ("tss", "list:tsev")}
+    ATTRS.setdefault("tsev", {"tick": ("ts_tick_", "int")})
+    out.append(Tr("leaf_sync_post_init", env, {}, "unit").function(f, [("tss", "list ts_event")], True, procedure=True))
+    f = find_function(sync, "SyncTrack.from_chart_lines")
+    env = {"resolution": ("resolution", "int"), "lines": ("lines", "list:str")}
+    calls = {"cls._parse_data_from_chart_lines": ("leaf_sync_parse_data c", ["list:str"], pd3, True, None, True),
+             bef + "BPMEvent": ("build_bpm_events_py c", ["list:pdata", "int"], B, True),
+             bef + "TimeSignatureEvent": ("build_ts_events c", ["list:pdata", B], "list:tsev", True),
+             bef + "AnchorEvent": ("build_anchor_events", ["list:pdata"], "list:anchor", True),
+             "cls": ("mk_sync_track", ["list:tsev", B, "list:anchor"], "synctrack", True, ["time_signature_events", "bpm_events", "anchor_events"])}
+    out.append(Tr("leaf_sync_from_chart_lines", env, calls, "synctrack").function(f, [("c", "cfg"), ("resolution", "Z"), ("lines", "list str")], True))
+    # GlobalEventsTrack.from_chart_lines
+    f = find_function(glob, "GlobalEventsTrack.from_chart_lines")
+    env = {"lines": ("lines", "list:str"), "bpm_events": ("B", B)}
+    calls = {"cls._parse_data_from_chart_lines": ("leaf_globals_parse_data c", ["list:str"], pd3, True, None, True),
+             bef + "TextEvent": ("build_globals_py", ["list:pdata", B], "list:gev", True),
+             bef + "SectionEvent": ("build_globals_py", ["list:pdata", B], "list:gev", True),
+             bef + "LyricEvent": ("build_globals_py", ["list:pdata", B], "list:gev", True),
+             "cls": ("mk_globals", ["list:gev", "list:gev", "list:gev"], "gevtrack", False, ["text_events", "section_events", "lyric_events"])}
+    out.append(Tr("leaf_globals_from_chart_lines", env, calls, "gevtrack").function(f, [("c", "cfg"), ("lines", "list str"), ("B", "bpm_events")], True))
+    return out
+
+
+TRACKS_HEADER = """From CP Require Import Base.Prelude Base.Str Base.Cfg Base.Loops Base.While Base.Float64 Base.Timedelta Model.Lines Model.Sync Model.Instrument Model.Chart Gen.Leaf_dispatch.
+Open Scope Z_scope.
+(* build_events_from_data for each event class, and the constructors (with their __post_init__), as the model has them *)
+Definition build_sp_events (ds : list pdata) (B : bpm_events) : result (list special_event) :=
+  let* tms := build_timed B (map pd_tick ds) None in
+  Ok (map (fun '(tm, d) => {| sp_at := tm; sp_sus := sp_sus_of d |}) (combine tms ds)).
+Definition build_tev_events (ds : list pdata) (B : bpm_events) : result (list track_event) :=
+  let* tms := build_timed B (map pd_tick ds) None in
+  Ok (map (fun '(tm, d) => {| te_at := tm; te_value := tev_val_of d |}) (combine tms ds)).
+Definition build_note_events_py (c : cfg) (ds : list pdata) (sps : list special_event) (B : bpm_events) :=
+  build_notes c B sps (group_by_tick (map ndata_of ds)) None 0 0.
+Definition mk_itrack (i d : str) (ns : list note_event) (sps : list special_event) (tes : list track_event) : itrack :=
+  {| it_instr := i; it_diff := d; it_notes := ns; it_sps := sps; it_tevs := tes |}.
+Definition ts_tick_ (e : ts_event) : Z := t_tick (ts_at e).
+Definition build_bpm_events_py (c : cfg) (ds : list pdata) (R : Z) := build_bpm_events (tbl c) (map bpm_payload ds) R.
+Definition build_ts_events (c : cfg) (ds : list pdata) (B : bpm_events) : result (list ts_event) :=
+  let* tms := build_timed B (map pd_tick ds) None in
+  Ok (map (fun '(tm, d) => let '(u, l) := ts_payload c d in {| ts_at := tm; ts_upper := u; ts_lower := l |}) (combine tms ds)).
+Definition build_anchor_events (ds : list pdata) := mapM anchor_from ds.
+Definition build_globals_py (ds : list pdata) (B : bpm_events) := build_globals B ds.
+Definition mk_sync_track (tss : list ts_event) (B : bpm_events) (ans : list anchor_event) : result sync_track :=
+  match tss with
+  | [] => Err EValue
+  | t0 :: _ => if t_tick (ts_at t0) =? 0 then Ok {| st_ts := tss; st_bpm := B; st_anchor := ans |} else Err EValue
+  end.
+Definition mk_globals (tx se ly : list global_event) : global_events_track := {| g_text := tx; g_section := se; g_lyric := ly |}.
+"""
+
+
+def group_fromfile():
+    tree = ast.parse(open(os.path.join(REPO, "chartparse", "chart.py")).read())
+    f = find_function(tree, "Chart.from_file")
+    env = {"fp.read().splitlines()": ("(splitlines (tbl c) text)", "list:str"), "want_tracks": ("want_tracks", "opt:list:pair"),
+           "cls._required_header_tags": ("(required_tags c)", "list:str"),
+           "Metadata.header_tag": ("(tag_song c)", "str"), "SyncTrack.header_tag": ("(tag_sync c)", "str"), "GlobalEventsTrack.header_tag": ("(tag_events c)", "str")}
+    calls = {"cls._partition_lines_by_data_section": ("partition c", ["list:str"], "dict:str,list:str", True),
+             "Metadata.from_chart_lines": ("meta_parse c", ["list:str"], "metadata", True),
+             "SyncTrack.from_chart_lines": ("sync_from_lines c", ["int", "list:str"], "synctrack", True, None, True),
+             "GlobalEventsTrack.from_chart_lines": ("globals_from_lines c", ["list:str", "bpmevents"], "gevtrack", True, None, True),
+             "InstrumentTrack.from_chart_lines": ("itrack_from_lines c", ["str", "str", "list:str", "bpmevents"], "itrack", True, None, True),
+             "cls": ("mk_chart", ["metadata", "gevtrack", "synctrack", "tracks"], "chart", False)}
+    t = Tr("leaf_from_file", env, calls, "chart")
+    t.log_var = True
+    t.const_stmts = {"instrument_track_name_to_instrument_difficulty_pair":
+                     ("{d.value + i.value: (i, d) for i, d in itertools.product(Instrument, Difficulty)}", "(rev (header_pairs c))", "dict:str,pair")}
+    return [t.function(f, [("c", "cfg"), ("text", "str"), ("want_tracks", "option (list (str * str))")], True)]
+
+
+FROMFILE_HEADER = """From CP Require Import Base.Prelude Base.Str Base.Cfg Base.Loops Base.While Base.Float64 Base.Timedelta Model.Lines Model.Sync Model.Instrument Model.Chart.
+Open Scope Z_scope.
+(* insertion-ordered dicts as association lists: `k in d`, `d[k]` (KeyError) *)
+Definition dict_mem {A} (k : str) (d : list (str * A)) : bool := match assoc k d with Some _ => true | None => false end.
+Definition dict_get {A} (d : list (str * A)) (k : str) : result A := match assoc k d with Some v => Ok v | None => Err EKey end.
+Definition mk_chart (m : metadata) (g : global_events_track) (s : sync_track) (tr : list (str * list (str * itrack))) : chart :=
+  {| c_meta := m; c_gev := g; c_sync := s; c_tracks := tr |}.
+"""
 
 
 def group_bpm():
@@ -838,7 +1653,7 @@ Definition mk_ts_event (tick ts upper lower idx : Z) : ts_event := {| ts_at := {
 """
 
 
-NOTE_HEADER = """From CP Require Import Base.Prelude Base.Cfg Base.Loops Base.Float64 Base.Timedelta Model.Sync Model.Instrument Gen.Leaf_tick Gen.Leaf_special.
+NOTE_HEADER = """From CP Require Import Base.Prelude Base.Cfg Base.Loops Base.While Base.Float64 Base.Timedelta Model.Sync Model.Instrument Gen.Leaf_tick Gen.Leaf_special.
 Open Scope Z_scope.
 (* argument order of the source's call sites; the record constructor the source's keyword construction denotes *)
 Definition compute_sp_py (tick : Z) (sps : list special_event) (i : Z) := compute_sp sps tick i.
@@ -851,6 +1666,11 @@ GROUPS = [
     ("Leaf_special", group_special, "From CP Require Import Base.Prelude Base.Float64 Model.Sync Model.Instrument Gen.Leaf_tick.\nOpen Scope Z_scope.\n"),
     ("Leaf_hopo", group_hopo, "From CP Require Import Base.Prelude Base.Float64 Model.Sync Model.Instrument Gen.Leaf_tick Gen.Leaf_special.\nOpen Scope Z_scope.\n"),
     ("Leaf_note", group_note, NOTE_HEADER),
+    ("Leaf_sustain", group_sustain, SUSTAIN_HEADER),
+    ("Leaf_chart", group_chart, CHART_HEADER),
+    ("Leaf_dispatch", group_dispatch, DISPATCH_HEADER),
+    ("Leaf_tracks", group_tracks, TRACKS_HEADER),
+    ("Leaf_fromfile", group_fromfile, FROMFILE_HEADER),
     ("Leaf_bpm", group_bpm, BPM_HEADER),
     ("Leaf_timed", group_timed, TIMED_HEADER),
     ("Leaf_query", group_query, "From CP Require Import Base.Prelude Base.Loops Base.Float64 Base.Timedelta Model.Sync Gen.Leaf_tick.\nOpen Scope Z_scope.\n"),
